@@ -65,10 +65,13 @@ var corpusC10 = []string{
 func H_C10_windows() {
 	ci := vChoose(len(corpusC10))
 	if vTier() == 0 {
-		// quick: a seed-dependent third of the corpus
-		vAssume(ci%3 == vSeed()%3)
+		// quick: a seed-dependent eighth of the corpus
+		vAssume(ci%8 == vSeed()%8)
 	}
 	s := corpusC10[ci]
+	if len(s) > 14 && s[:3] == "(((" || len(s) > 14 && s[:5] == "not (" {
+		return // deep nesting: covered concretely (a window over it costs 10^5 parser steps per path)
+	}
 	pos := vChoose(len(s) + 1)
 	var in string
 	if vBool() && pos < len(s) {
